@@ -36,6 +36,11 @@ var verifPairNames = []string{
 	21: "RecordRequest/RecordResponse || GetMetrics",
 	22: "ListBackends || MarkBackendUnhealthy (after an expired window)",
 	23: "Execute || Execute inside a half-open episode (max_requests 3)",
+	24: "NextBackend || NextBackend [round_robin]",
+	25: "NextBackend || NextBackend [least_connections]",
+	26: "NextBackend || NextBackend [weighted_round_robin]",
+	27: "NextBackend || NextBackend [ip_hash]",
+	28: "NextBackend || NextBackend [ip_hash_consistent]",
 }
 
 // VerifC12Pair runs two operations of the Helios-owned shared state
@@ -154,6 +159,17 @@ func VerifC12Pair(pair int) {
 		verifrt.Advance(2 * time.Second)
 		verifrt.Go(func() { lb.ListBackends() })
 		verifrt.Go(func() { lb.MarkBackendUnhealthy(bs[0], time.Minute) })
+	case 24, 25, 26, 27, 28:
+		// two requests of different clients pick a backend at the same time
+		lb := verifBareLB(pair - 24)
+		verifPool(lb, 9, 3, false)
+		if rr, ok := lb.strategy.(*RoundRobinStrategy); ok {
+			rr.current = 5 // the rotation position is irrelevant to the pair; C05 covers every position
+		}
+		r2 := verifRequest("10.9.8.7:4711")
+		r2.Header.Set("X-Forwarded-For", "203.0.113.77")
+		verifrt.Go(func() { lb.NextBackend(r) })
+		verifrt.Go(func() { lb.NextBackend(r2) })
 	case 21:
 		mc := metrics.NewMetricsCollector()
 		verifrt.Go(func() { mc.RecordRequest(); mc.RecordResponse(true, time.Millisecond); mc.RecordRateLimitedRequest() })
